@@ -884,7 +884,11 @@ impl<'a> Parser<'a> {
                     ix += 3;
                     loop {
                         if ix >= self.re.len() {
-                            return Err(Error::ParseError(ix, ParseError::UnclosedOpenParen));
+                            // `ix` can be past the end after skipping an escaped character
+                            return Err(Error::ParseError(
+                                self.re.len(),
+                                ParseError::UnclosedOpenParen,
+                            ));
                         }
                         match bytes[ix] {
                             b')' => {
